@@ -2664,11 +2664,21 @@ func (p *Parser) parseFill() (FillOption, interface{}, error) {
 	// Parse the expression first.
 	tok, _, lit := p.ScanIgnoreWhitespace()
 	p.Unscan()
-	if tok != IDENT || strings.ToLower(lit) != "fill" {
+	if tok != FILL && (tok != IDENT || strings.ToLower(lit) != "fill") {
 		return NullFill, nil, nil
 	}
-
-	expr, err := p.ParseExpr()
+	var expr Expr
+	var err error
+	if tok == FILL {
+		// FILL is a keyword of the scanner: read "fill" "(" args ")" as a call
+		p.ScanIgnoreWhitespace()
+		if t, pos, l := p.ScanIgnoreWhitespace(); t != LPAREN {
+			return NullFill, nil, newParseError(tokstr(t, l), []string{"("}, pos)
+		}
+		expr, err = p.parseCall("fill")
+	} else {
+		expr, err = p.ParseExpr()
+	}
 	if err != nil {
 		return NullFill, nil, err
 	}
